@@ -153,7 +153,7 @@ func Plan(tier string, seed uint64) []Cfg {
 			if r.Intn(150) == 0 {
 				sz = 125000 // a 10^6-bit sample: size-dependent fast paths only show here
 			}
-			if r.Intn(45) == 0 {
+			if r.Intn(110) == 0 {
 				sz = []int{1 << 20, 1<<20 + 1, 1<<20 + 4096}[r.Intn(3)] // 2^23 bits and more: size thresholds of parallel or chunked paths
 			}
 			c.Inputs = append(c.Inputs, InputSpec{N: sz, Seed: r.Uint64() % 16, Kind: []string{"prf", "prf", "biased", "alt", "zeros"}[r.Intn(5)]})
@@ -199,18 +199,37 @@ func Plan(tier string, seed uint64) []Cfg {
 			}
 		}
 		if huge {
+			// every input of such a case is of that size class (overlapping calls on
+			// large inputs are the point), at most two of them
+			if len(c.Inputs) > 2 {
+				c.Inputs = c.Inputs[:2]
+				nin = 2
+			}
+			for k := range c.Inputs {
+				if c.Inputs[k].N <= 200000 {
+					c.Inputs[k].N = []int{1 << 20, 1<<20 + 1, 1<<20 + 4096}[r.Intn(3)]
+				}
+			}
 			// linear-time entry points only
 			var lin []int
 			for i, cd := range Catalogue {
 				switch {
-				case cd.Heavy, strings.HasPrefix(cd.Name, "registry["), strings.HasPrefix(cd.Name, "Round"), strings.HasPrefix(cd.Name, "DiscreteFourier"), strings.HasPrefix(cd.Name, "LinearComplexity"):
+				case cd.Heavy, strings.HasPrefix(cd.Name, "registry["), strings.HasPrefix(cd.Name, "Round"), strings.HasPrefix(cd.Name, "DiscreteFourierTransformTestBytes"), strings.HasPrefix(cd.Name, "LinearComplexity"):
 				default:
 					lin = append(lin, i)
 				}
 			}
 			light = lin
 			focus = lin[r.Intn(len(lin))]
-			if r.Intn(4) == 0 {
+			if r.Intn(5) == 0 {
+				// the transform is by far the largest consumer of memory at this size
+				for i, cd := range Catalogue {
+					if cd.Name == "DiscreteFourierTransformTest" {
+						focus = i
+						break
+					}
+				}
+			} else if r.Intn(4) == 0 {
 				for i, cd := range Catalogue {
 					if strings.HasPrefix(cd.Name, "FrequencyWithinBlockProto") {
 						focus = i
@@ -224,7 +243,8 @@ func Plan(tier string, seed uint64) []Cfg {
 			var steps []Step
 			for s := 0; s < ns; s++ {
 				call := focus
-				if r.Intn(3) == 0 {
+				if r.Intn(3) == 0 && !(huge && s == 0) {
+					// (on huge inputs every caller starts with the focus call: overlap is the point)
 					call = light[r.Intn(len(light))]
 				}
 				if r.Intn(40) == 0 && !big {
@@ -254,13 +274,38 @@ func Plan(tier string, seed uint64) []Cfg {
 				c.MemLimitMB = 64
 			}
 			c.Quantum = 70000
-			if len(c.Tasks) > 3 {
-				c.Tasks = c.Tasks[:3]
+			if len(c.Tasks) > 6 {
+				c.Tasks = c.Tasks[:6]
 			}
 		} else if i%13 == 5 && !big {
 			// first concurrent users of a fresh process, preempted early and often
 			c.Fresh = true
 			c.Quantum = []int64{17, 17, 130}[r.Intn(3)]
+		}
+		out = append(out, c)
+	}
+	// many overlapping callers of the most memory-hungry calls on the largest
+	// inputs (2^23 bits and a little more): whatever bounds or shares large
+	// allocations is exercised here with five to six callers at once
+	nheavy := 2
+	if tier == "thorough" {
+		nheavy = 60
+	}
+	for i := 0; i < nheavy; i++ {
+		name := []string{"DiscreteFourierTransformTest", "FrequencyWithinBlockProto(m=1000)", "MatrixRankTest", "ApproximateEntropyProto(m=5)"}[i%4]
+		call := -1
+		for k, cd := range Catalogue {
+			if cd.Name == name {
+				call = k
+			}
+		}
+		if call < 0 {
+			continue
+		}
+		c := Cfg{Prop: "C18", QSeed: r.Uint64(), Quantum: 70000, Policy: genPolicy(r, 200), NumCPU: []int{4, 8, 16}[r.Intn(3)]}
+		c.Inputs = []InputSpec{{N: 1<<20 + 4096*r.Intn(2), Seed: r.Uint64() % 16, Kind: "prf"}, {N: 1 << 20, Seed: r.Uint64() % 16, Kind: "biased"}}
+		for t := 0; t < 5+r.Intn(2); t++ {
+			c.Tasks = append(c.Tasks, []Step{{Call: call, Input: t % 2}})
 		}
 		out = append(out, c)
 	}
